@@ -3,6 +3,7 @@ package props
 // C04 — concurrent logging delivers every entry exactly once as an intact line.
 
 import (
+	"regexp"
 	"bytes"
 	"fmt"
 	"log"
@@ -71,6 +72,9 @@ type c04Program struct {
 
 var c04Fronts = []string{"info", "log", "check", "sugarw", "sugarf", "sugarln", "sugar", "child-with", "child-named", "child-lazy", "stdlog", "zapio",
 	"reflect", "reflect", "errors", "object", "child-reflect", "shared-reflect", "shared-reflect", "reflect-fail", "reflect-fail", "errors", "errors-fault"}
+
+// every caller annotation in a C04 program is "<dir>/<file>.go:<line>" of the harness, zap or the standard library
+var c04CallerRe = regexp.MustCompile(`^[A-Za-z0-9_.@-]+/[A-Za-z0-9_.-]+\.go:[0-9]+$`)
 
 // c04Obj is a nested marshaler carrying its goroutine and a padding.
 type c04Obj struct {
@@ -409,6 +413,9 @@ func c04Run(t interface{ Fatalf(string, ...any) }, p *c04Program) (alternations 
 					t.Fatalf("%s: line %d does not have time, level, name, caller and message columns: %q", st.name, li, clipS(string(ln)))
 				}
 				level, name, msg = cols[1], cols[2], cols[4]
+				if !c04CallerRe.MatchString(cols[3]) {
+					t.Fatalf("%s: line %d: caller column corrupted: %q", st.name, li, clipS(string(ln)))
+				}
 				if _, err := time.Parse(time.RFC3339Nano, cols[0]); err != nil {
 					t.Fatalf("%s: line %d: time column corrupted: %q", st.name, li, clipS(string(ln)))
 				}
@@ -444,6 +451,9 @@ func c04Run(t interface{ Fatalf(string, ...any) }, p *c04Program) (alternations 
 					}
 				}
 				for _, kv := range n.kids {
+					if kv.k == "c" && !c04CallerRe.MatchString(kv.v.s) {
+						t.Fatalf("%s: line %d: caller value corrupted: %q", st.name, li, clipS(string(ln)))
+					}
 					if kv.k == "t" {
 						if _, err := time.Parse(time.RFC3339Nano, kv.v.s); err != nil {
 							t.Fatalf("%s: line %d: time value corrupted: %q", st.name, li, clipS(string(ln)))
